@@ -37,9 +37,7 @@ def r1(ctx, prog):
         n = 0
         for p, outs in cfg.edges.items():
             for q, lab in outs:
-                fa = cfg.fact(lab)
-                if fa is None:
-                    continue
+              for fa in cfg.facts(lab):
                 c = rl.norm_cmp(f, fa[0], fa[1])
                 if c is None or c[0] in ("==", "!="):
                     continue
